@@ -269,6 +269,45 @@ func iosVRFIntfSpace() *space {
 	return sp
 }
 
+// raw-blocks: the target ACL comes in three pieces - two blocks of the same
+// ACL in the raw file (legal: "multiple occurences of same ACL in raw") and
+// the rest from Netspoc; the device holds another sequence of the same
+// lines, so the change is incremental.  The effective target is the plain
+// concatenation (raw lines are prepended in file order).
+func iosRawBlocksSpace(name string, lines []string, nLines, maxLen int) *space {
+	sq := seqs(nLines, 1, maxLen)
+	var tg [][]int
+	for _, s := range sq {
+		if len(s) >= 3 {
+			tg = append(tg, s)
+		}
+	}
+	nb := int64(len(tg))
+	intf := iosIntf("Ethernet0", "10.0.0.1", "ip access-group inside_in in")
+	sp := &space{name: name, model: "IOS", n: int64(len(sq)) * nb, acl: "inside_in"}
+	sp.gen = func(i int64) (core.Files, core.Files) {
+		sa, sb := sq[i/nb], tg[i%nb]
+		raw := iosACLBody("inside_in", sb[:1], lines, false) + iosACLBody("inside_in", sb[1:2], lines, false) +
+			"interface Ethernet0\n ip access-group inside_in in\n"
+		return core.Files{Main: iosACLBody("inside_in", sa, lines, false) + intf},
+			core.Files{Main: iosACLBody("inside_in", sb[2:], lines, false) + intf, Raw: raw}
+	}
+	sp.eff = func(b core.Files) string {
+		var pre []string
+		inACL := false
+		for _, l := range strings.Split(b.Raw, "\n") {
+			if !strings.HasPrefix(l, " ") {
+				inACL = strings.HasPrefix(l, "ip access-list ")
+			} else if inACL {
+				pre = append(pre, l)
+			}
+		}
+		head, rest, _ := strings.Cut(b.Main, "\n")
+		return head + "\n" + strings.Join(pre, "\n") + "\n" + rest
+	}
+	return sp
+}
+
 func iosSpaces(ctx *core.Ctx) []*space {
 	l := []*space{
 		c02ACLSpace("acl", 6, 3),
@@ -280,6 +319,7 @@ func iosSpaces(ctx *core.Ctx) []*space {
 		iosIntfSpace(),
 		iosCryptoSpace(),
 		iosEditSpace(),
+		iosRawBlocksSpace("raw-blocks", c02Lines, 5, 3),
 		noiseSpace("IOS"),
 		corpusSpace("IOS"),
 	}
@@ -301,7 +341,7 @@ func c02Worker(ctx *core.Ctx) *core.Result {
 func init() {
 	registerSharded("C02", c02Worker, func(tier string) core.Meta {
 		return core.Meta{ID: "C02", Level: "model_checking",
-			Rule:        "states = distinct device-model states (per worker, summed); transitions = runs of the real planner; enumerated: all (device,target) pairs of the spaces acl (block structured, device printed with and without IOS-XE sequence numbers), acl-log (the same rule with none/log/log-input on either side, len<=4), rt, vrf, vrf-intf (every VRF known through an interface), intf, crypto, value-edit (one argument token of the target changed by a single-character edit), noise (one unmodelled toplevel block inserted at every toplevel position; the script must equal the one without it), corpus (ios_*.t) and a breadth-first chain of approves; the script is executed on the reference IOS model (sequence numbers, resequence, interface and crypto-map sub-modes); oracle: per managed interface the bound ACLs as sequences of maximal same-action runs (each a set), routes per VRF the target mentions, second compare silent for both print forms, empty script only for an equivalent device",
+			Rule:        "states = distinct device-model states (per worker, summed); transitions = runs of the real planner; enumerated: all (device,target) pairs of the spaces acl (block structured, device printed with and without IOS-XE sequence numbers), acl-log (the same rule with none/log/log-input on either side, len<=4), rt, vrf, vrf-intf (every VRF known through an interface), intf, crypto, value-edit (one argument token of the target changed by a single-character edit), noise (one unmodelled toplevel block inserted at every toplevel position; the script must equal the one without it), raw-blocks (target ACL = two blocks of that ACL in the raw file + the Netspoc lines, device another sequence: incremental change towards a merged target), corpus (ios_*.t) and a breadth-first chain of approves; the script is executed on the reference IOS model (sequence numbers, resequence, interface and crypto-map sub-modes); oracle: per managed interface the bound ACLs as sequences of maximal same-action runs (each a set), routes per VRF the target mentions, second compare silent for both print forms, empty script only for an equivalent device",
 			Assumptions: []string{"reference IOS model validated against the repository's DEVICE/NETSPOC/OUTPUT triples"},
 			Bounds:      map[string]any{"quick": "acl len<=3 over 6 lines, len<=4 over 5 lines, log variants len<=4", "thorough": "acl len<=4 over 8 lines"},
 		}
